@@ -7,6 +7,9 @@
       some worker exactly once (`start` is enabled only for a queued task), runs to its end (`finish`), then its
       done-callbacks run (`callback`); `future.result()` returns once the task is done and re-raises its error;
       any number of workers;
+    * `push_snapshot` either as one step (`push`) or in the regions of `submit_task` (`pushBegin` = `__check_open`,
+      `_next_id`, `pool.submit`; `pushStore` = the store into the pending map + the done-callback being attached):
+      between the two the task can already run, and a flush that begins there does not see it;
     * how `flush` walks its skeleton: close, snapshot of the pending map, one `future.result` per entry inside the
       `try` the skeleton shows (`flushCatches`), return;
     * what a task body does: `Outcome` (the failure subset is a function `Int → Outcome` from job id).
@@ -69,12 +72,22 @@ structure St where
   /-- `push_snapshot` calls that were refused with the visible exception -/
   refused : Nat
   flush : Flush
+  /-- job ids handed to the pool by a `submit_task` that has not yet stored them in the pending map (a push that is
+      between `pool.submit` and `self._pending[id] = future`) -/
+  storing : List Int
+  /-- ghost: some `flushBegin` happened while a push was in that window -/
+  overlap : Bool
+  /-- ghost: some `future.result(10)` of flush gave up on an unfinished task -/
+  timedOut : Bool
 deriving DecidableEq, Repr
 
-def St.init : St := ⟨TH.init, [], 0, 0, .idle⟩
+def St.init : St := ⟨TH.init, [], 0, 0, .idle, [], false, false⟩
 
 inductive Step where
-  | push                         -- the application thread: PushService.push_snapshot
+  | push                         -- the application thread: PushService.push_snapshot, all of it at once
+  | pushBegin                    -- … or in its regions: check + id + pool.submit (the task can run from here on)
+  | pushStore (id : Int)         --   then `_pending[id] = future` and the done-callback (run at once if already done)
+  | flushTimeout                 -- `future.result(10)` gives up on the task flush is waiting for (TimeoutError)
   | start (id : Int) (w : Nat)   -- worker `w` takes task `id` off the queue
   | finish (id : Int)            -- the body ends (as `f id` says)
   | callback (id : Int)          -- the done-callback of task `id`
@@ -128,8 +141,39 @@ def push (s : St) : St :=
     | .ok (th', id) => { s with th := th', tasks := s.tasks ++ [⟨id, .queued, false, [], 0⟩] }
   else s
 
+def pushBegin (s : St) : St :=
+  let s := { s with callerRuns := s.callerRuns + pushInlineCalls }
+  if pushViaSubmit then
+    match submitAccept s.th with
+    | .error _ => { s with refused := s.refused + 1 }
+    | .ok (th', id) => { s with th := th', tasks := s.tasks ++ [⟨id, .queued, false, [], 0⟩],
+                                storing := s.storing ++ [id] }
+  else s
+
 def step (f : Int → Outcome) (s : St) : Step → St
   | .push => push s
+  | .pushBegin => pushBegin s
+  | .pushStore id =>
+    if s.storing.contains id then
+      let s := { s with storing := s.storing.erase id, th := submitStore s.th id }
+      match findTask id s.tasks with
+      | some t =>
+        -- `future.add_done_callback(callback)` on a future that is already done runs the callback at once
+        if t.fut = .done ∧ callbackAttached = true then
+          { s with tasks := updTask id (fun t => { t with cb := true }) s.tasks, th := callback s.th id }
+        else s
+      | none => s
+    else s
+  | .flushTimeout =>
+    match s.flush with
+    | .waiting (id :: rest) =>
+      match findTask id s.tasks with
+      | some t =>
+        if t.fut = .done then s
+        else if flushCatches .exc then { s with flush := .waiting rest, timedOut := true }
+        else { s with flush := .raised .exc }
+      | none => s
+    | _ => s
   | .start id w =>
     match findTask id s.tasks with
     | some t =>
@@ -148,7 +192,7 @@ def step (f : Int → Outcome) (s : St) : Step → St
   | .callback id =>
     match findTask id s.tasks with
     | some t =>
-      if t.fut = .done ∧ t.cb = false ∧ callbackAttached = true then
+      if t.fut = .done ∧ t.cb = false ∧ callbackAttached = true ∧ s.storing.contains id = false then
         let s := { s with tasks := updTask id (fun t => { t with cb := true }) s.tasks, th := callback s.th id }
         match s.flush with
         | .waiting _ => if flushIteratesSnapshot then s else { s with flush := .raised .exc }
@@ -159,7 +203,7 @@ def step (f : Int → Outcome) (s : St) : Step → St
     match s.flush with
     | .idle | .returned =>
       { s with th := { s.th with isOpen := if flushCloses then false else s.th.isOpen },
-               flush := .waiting s.th.pending }
+               flush := .waiting s.th.pending, overlap := s.overlap || !s.storing.isEmpty }
     | _ => s
   | .flushWait =>
     match s.flush with
